@@ -23,7 +23,7 @@ func runC17S2(c *Ctx) {
 			return false
 		}
 		lk, ok := ex.Tuple.(*ssa.Lookup)
-		if !ok || !lk.CommaOk || typeStr(lk.X.Type()) != "net/http.Header" {
+		if !ok || !lk.CommaOk || c17typeStr(lk.X.Type()) != "net/http.Header" {
 			return false
 		}
 		return derives(lk.Index, func(w ssa.Value) bool { s, isS := constString(w); return isS && s == "Content-Type" })
@@ -33,7 +33,7 @@ func runC17S2(c *Ctx) {
 			var val ssa.Value
 			if cc := callCommon(i); cc != nil && len(cc.Args) == 3 && (calleeName(cc) == "(net/http.Header).Set" || calleeName(cc) == "(net/http.Header).Add") {
 				val = cc.Args[2]
-			} else if mu, ok := i.(*ssa.MapUpdate); ok && typeStr(mu.Map.Type()) == "net/http.Header" {
+			} else if mu, ok := i.(*ssa.MapUpdate); ok && c17typeStr(mu.Map.Type()) == "net/http.Header" {
 				val = mu.Value
 			}
 			if val == nil || !derives(val, func(v ssa.Value) bool { _, ok := isCallTo(v, "net/http.DetectContentType"); return ok }) {
@@ -54,7 +54,7 @@ func runC17F2(c *Ctx) {
 	var methods []*ssa.Function
 	byRecv := map[string][]*ssa.Function{}
 	for _, f := range c.fnsWhere("proxy/gzip", func(fn *ssa.Function) bool { return fn.Signature.Recv() != nil }) {
-		k := typeStr(f.Signature.Recv().Type())
+		k := c17typeStr(f.Signature.Recv().Type())
 		byRecv[strings.TrimPrefix(k, "*")] = append(byRecv[strings.TrimPrefix(k, "*")], f)
 	}
 	for _, ms := range byRecv {
@@ -92,7 +92,7 @@ func runC17F2(c *Ctx) {
 			// on the wrapped http.ResponseWriter (or an optional interface asserted from it), not on the decided writer
 			if !derives(cc.Value, func(v ssa.Value) bool {
 				if fa, ok := v.(*ssa.FieldAddr); ok {
-					return strings.HasSuffix(typeStr(fa.Type()), "net/http.ResponseWriter")
+					return strings.HasSuffix(c17typeStr(fa.Type()), "net/http.ResponseWriter")
 				}
 				return false
 			}) {
@@ -129,6 +129,9 @@ func c17isDecisionField(v ssa.Value) bool {
 func c17ensures(i ssa.Instruction, depth int) bool {
 	if st, ok := i.(*ssa.Store); ok && c17isDecisionField(st.Addr) && !isNilConst(st.Val) {
 		return true
+	}
+	if k := c17theKit; k != nil && k.isFlagSet(i) {
+		return true // an explicit `decided` flag (tied to the writer field, or the decision itself: see decisionFlags)
 	}
 	call, ok := i.(*ssa.Call)
 	if !ok || depth > 2 {
